@@ -25,6 +25,12 @@ ENV_SAN = {
 }
 
 
+def _clip(err):
+    if len(err) <= 9000:
+        return err
+    return err[:4000] + "\n[...]\n" + err[-5000:]
+
+
 class Crash:
     def __init__(self, case_id, rc, stderr):
         self.case_id = case_id
@@ -117,14 +123,14 @@ def _run_batch(binary, lines, workdir, idx, timeout, wrapper=None, env_extra=Non
             if to:
                 timed_out.append(begun)
             else:
-                crashes.append(Crash(begun, rc, err[-8000:]))
+                crashes.append(Crash(begun, rc, _clip(err)))
             start = (pos + 1) if pos is not None else len(lines)
         else:
             # died outside a case (startup / exit, e.g. leak report at exit)
             if to:
                 timed_out.append("<outside>")
             else:
-                crashes.append(Crash("<exit>", rc, err[-8000:]))
+                crashes.append(Crash("<exit>", rc, _clip(err)))
             if ndone == len(lines) - start:
                 break
             start = start + ndone + 1 if ndone < len(lines) - start else len(lines)
